@@ -130,7 +130,7 @@ EXTRA2 = {
  'C09': 'Also: an astype that keeps the input item size gives a symbolic item size, so marker = payload fails as a polynomial identity.',
  'C10': 'Also: handler guards are membership tests (not truthiness / selector kind / elif of another dimension); applyAlongDimensions and ncf2ioapi store NLAYS + 1 edges (size algebra).',
  'C11': 'Also: each georeferencing handler runs whenever its dimension is selected (no truthiness test of the selector, no elif chaining of ROW after COL).',
- 'C12': 'Also: datetime64 unit no coarser than the resolution found; epoch seconds never cast to 4-byte integers; updatetflag deletes the old TFLAG before it asks getTimes().',
+ 'C12': 'Also: datetime64 unit no coarser than the resolution found; epoch seconds never cast to 4-byte integers; updatetflag deletes the old TFLAG before it asks getTimes(); in 365/366-day calendars the reference date enters as its positive offset into the model year (R-REFSHIFT).',
  'C13': 'Also: one end-of-day constant per record reader (run-time choices undecided); wind memmap step size = header + 2 x layers x record + dummy (size algebra).',
  'C15': 'Also: registerreader refuses a taken name whatever the class (case analysis); the extension is derived with os.path functions only; pncmfopen passes the caller keywords unchanged.',
  'C16': 'Also: time2t unit table; both range limits from the edge array; no sorting/merging of coordinate or edge values.',
